@@ -152,7 +152,10 @@ def expect(q, dflt):
                 return ns, reg.metadata[ns][steps[i][1].name]
         return None, None
 
-    resolved = [(i,) + resolve(i) for i in acts]
+    try:
+        resolved = [(i,) + resolve(i) for i in acts]
+    except TypeError:
+        return None          # a namespace variable holding a non-string (a list from a link argument): outside the vocabulary's use of `ns`
     ns, md = resolved[-1][1], resolved[-1][2]
     e.update(last=[act.name] + [p.string if isinstance(p, StringActionParameter) else "~X~" + p.link.encode() + "~E" for p in act.parameters],
              name=act.name, ns=ns, version=None if md is None else md.version, parent=prefix_text(j),
@@ -335,6 +338,15 @@ def evaluate_once(q, store=None, store_key=None):
 
 
 def run_task(task):
+    """never raises: a harness exception becomes a finding that names the task"""
+    try:
+        return run_task_(task)
+    except Exception:
+        import traceback
+        return dict(lines=[], bad=[("harness:%s" % (task[2],), "harness exception for task %r: %s" % (task, traceback.format_exc()[-700:]))], outcome="harness-error", actions=0, tags=[])
+
+
+def run_task_(task):
     """worker: (mode, cfg, query, defaults) -> dict(lines=[...], bad=[(key, text)], kinds=[...])
     mode 'nocache' | 'cache' (cfg = index in cache_configs) | 'store' (cfg = 'mem' | 'file')"""
     mode, cfg, q, dflt = task
